@@ -33,7 +33,7 @@ Proof.
 Qed.
 
 (* ---------------- actor level (kernel model MV.Kernel.Model) ---------------- *)
-From MV Require Import Kernel.Model Kernel.Queue Kernel.Conservation.
+From MV Require Import Kernel.Model Kernel.Queue Kernel.Conservation Kernel.Exactly.
 
 (* Conservation of user messages, for every table of scripted roles, every run of the kernel from the
    freshly started system and every message serial: the number of sends (counted per receiver, for receivers
@@ -43,15 +43,37 @@ From MV Require Import Kernel.Model Kernel.Queue Kernel.Conservation.
    address reuse included), and a message is never both handled and dead-lettered more often than it was sent. *)
 Theorem C02_kernel_conservation : forall roles sn ls s' os,
   krun roles kinit ls = Some (s', os) ->
-  sum_over (sentc sn) os = sum_over (handc sn) os + sum_over (deadc sn) os + pending sn s'.
+  sum_over (sentc sn w1) os = sum_over (handc sn w1) os + sum_over (deadc sn w1) os + pending sn w1 s'.
 Proof. exact conservation_from_init. Qed.
 Print Assumptions C02_kernel_conservation.
 
 (* the same flow equation for one step from ANY state *)
 Theorem C02_kernel_step_conservation : forall roles sn s l s' o,
-  kstep roles s l = Some (s', o) -> pending sn s' + handc sn o + deadc sn o = pending sn s + sentc sn o.
-Proof. intros roles sn s l s' o H. pose proof (kstep_bal roles sn s l s' o H) as B. unfold bal in B. lia. Qed.
+  kstep roles s l = Some (s', o) -> pending sn w1 s' + handc sn w1 o + deadc sn w1 o = pending sn w1 s + sentc sn w1 o.
+Proof.
+  intros roles sn s l s' o H. assert (Q : QW w1 s) by (intros u a e _ _ _; reflexivity).
+  pose proof (kstep_bal roles sn w1 s l s' o Q H) as B. unfold bal in B. lia.
+Qed.
 Print Assumptions C02_kernel_step_conservation.
+
+(* EXACTLY ONCE, per receiver. The same flow equation with the weight "receiver address = t" (ind t): for every role
+   table, every run from the freshly started system, every serial sn and every user address t, the sends of sn to t
+   equal the times sn was handled by an actor at address t, plus the dead letters of sn addressed to t, plus the
+   copies still queued or in flight that are addressed to t. Hence a message sent once to t is at every moment exactly
+   one of: pending / handled once / a dead letter once — never handled twice, never both, never silently gone — and
+   the copies of a broadcast are accounted child by child. (Uses Kernel.Watch.addressed_reachable: in reachable states
+   a queued message is addressed to the object holding it.) *)
+Theorem C02_kernel_exactly_once_per_receiver : forall roles sn t ls s' os,
+  krun roles kinit ls = Some (s', os) ->
+  sum_over (sentc sn (ind t)) os = sum_over (handc sn (ind t)) os + sum_over (deadc sn (ind t)) os + pending sn (ind t) s'.
+Proof. exact exactly_once_per_receiver. Qed.
+Print Assumptions C02_kernel_exactly_once_per_receiver.
+
+Theorem C02_kernel_never_more_than_sent : forall roles sn t ls s' os,
+  krun roles kinit ls = Some (s', os) ->
+  sum_over (handc sn (ind t)) os + sum_over (deadc sn (ind t)) os <= sum_over (sentc sn (ind t)) os.
+Proof. exact never_more_than_sent. Qed.
+Print Assumptions C02_kernel_never_more_than_sent.
 
 (* sending never blocks or crashes the sender: external sends are always enabled, whatever the target *)
 Theorem C02_send_total : forall roles s t n, exists s' o, kstep roles s (LTell t n) = Some (s', o).
